@@ -1,4 +1,5 @@
 """Syntactic modification sets (heap keys possibly written) for loop havoc."""
+import z3
 from .world import OutOfSubset
 
 _memo = {}
@@ -351,7 +352,15 @@ def func_modset(V, key, stack):
 def block_modset(V, fnkey, blocks):
     fn = V.world.prog.funcs[fnkey]
     out = set()
+    c = V.contracts['funcs'].get(fnkey) if fnkey == getattr(V, 'fnkey', None) else None
+    counting = c is not None and 'countcalls' in c.get('flags', ())
     for b in blocks:
         for x in fn['blocks'][b]['instrs']:
             out |= instr_modset(V, fn, x, [fnkey])
+            if counting and x['op'] in ('Call', 'Go', 'Defer'):
+                # flag countcalls: a call made in a loop body advances its counter, so the counter is loop-modified
+                nm = x.get('static') or x.get('invoke') or ''
+                nm = nm.rsplit('.', 1)[-1]
+                if nm:
+                    out.add(('ghost', 'ncalls_' + nm, z3.IntSort()))
     return out
